@@ -121,7 +121,7 @@ def enum_ext(n: int) -> Dict[int, List[Expr]]:
                         for c in T[k]:
                             cur.append(("if", a, b, c))
                             if size == 4:  # three leaves: every chained comparison over the leaf set
-                                for o1, o2 in (("<", "<"), ("<", ">"), ("<=", "==")):
+                                for o1, o2 in (("<", "<"), ("<", ">"), ("<=", "=="), (">", ">="), (">=", ">"), ("<", "<="), ("<=", "<")):
                                     cur.append(("cmp", o1, o2, a, b, c))
         T[size] = cur
     return T
@@ -370,7 +370,7 @@ def random_strategy(third: str = "z"):
             st.tuples(st.just("f"), st.just("abs"), ch),
             st.tuples(st.just("f"), st.sampled_from(["min", "max"]), ch, ch),
             st.tuples(st.just("if"), ch, ch, ch),
-            st.tuples(st.just("cmp"), st.sampled_from(["<", "<=", ">", ">=", "=="]), st.sampled_from(["<", ">", "<=", "!="]), ch, ch, ch),
+            st.tuples(st.just("cmp"), st.sampled_from(["<", "<=", ">", ">=", "=="]), st.sampled_from(["<", ">", "<=", ">=", "!="]), ch, ch, ch),
         )
 
     return st.recursive(leaf, ext, max_leaves=10)
@@ -406,6 +406,23 @@ def payload_clause(col: Collector, seed: int, n: int) -> None:
         want = {"p": normalize_expression_sig_v1(s1), "q": normalize_expression_sig_v1(s2)}
         if sigs != want:
             col.add("payload_signature_not_of_own_expression", {"declared": "".join(params)}, case, sigs, want)
+        if i % 4 == 0:
+            # two sweep nodes over the SAME processor in one pipeline, each with its own expression
+            cfg2 = {"extensions": ["verif.lib.components"], "pipeline": {"nodes": [
+                {"processor": "FloatDataSource"},
+                {"processor": "VEchoProbe", "context_key": "e1", "derive": {"parameter_sweep": {"parameters": {"p": s1}, "variables": {"x": [1.0, 2.0], "y": [0.5]}}}},
+                {"processor": "VEchoProbe", "context_key": "e2", "derive": {"parameter_sweep": {"parameters": {"p": s2}, "variables": {"x": [1.0, 2.0], "y": [0.5]}}}}]}}
+            case2 = {"a": s1, "b": s2, "payload": "two_nodes"}
+            col.count(case2, ["payload", "payload_two_sweep_nodes_one_processor"], True, key="payload2:" + s1 + "|" + s2)
+            try:
+                nodes = build_inspection_payload(cfg2)["pipeline_spec_canonical"]["nodes"]
+                got2 = [n["preprocessor_metadata"]["derive"]["parameter_sweep"]["parameters_sig"]["p"] for n in nodes[1:3]]
+            except Exception as exc:  # noqa: BLE001
+                col.add("payload_signatures_unavailable", {"exc": type(exc).__name__}, case2, repr(exc)[:160])
+                continue
+            want2 = [normalize_expression_sig_v1(s1), normalize_expression_sig_v1(s2)]
+            if got2 != want2:
+                col.add("payload_signature_not_of_own_expression", {"declared": "two_nodes"}, case2, got2, want2)
 
 
 def plan(tier: str, seed: int, scale: float = 1.0) -> List[Dict[str, Any]]:
@@ -480,6 +497,17 @@ def replay(case: Dict[str, Any]) -> List[Dict[str, Any]]:
         from ..lib import observe
 
         observe.ensure_registered()
+        if case["payload"] == "two_nodes":
+            cfg2 = {"extensions": ["verif.lib.components"], "pipeline": {"nodes": [
+                {"processor": "FloatDataSource"},
+                {"processor": "VEchoProbe", "context_key": "e1", "derive": {"parameter_sweep": {"parameters": {"p": case["a"]}, "variables": {"x": [1.0, 2.0], "y": [0.5]}}}},
+                {"processor": "VEchoProbe", "context_key": "e2", "derive": {"parameter_sweep": {"parameters": {"p": case["b"]}, "variables": {"x": [1.0, 2.0], "y": [0.5]}}}}]}}
+            nodes = build_inspection_payload(cfg2)["pipeline_spec_canonical"]["nodes"]
+            got2 = [n["preprocessor_metadata"]["derive"]["parameter_sweep"]["parameters_sig"]["p"] for n in nodes[1:3]]
+            want2 = [_sig(case["a"]), _sig(case["b"])]
+            if got2 != want2:
+                out.append({"check": "payload_signature_not_of_own_expression", "features": {"declared": "two_nodes"}, "observed": got2, "expected": want2, "case": case})
+            return out
         params = {k: (case["a"] if k == "p" else case["b"]) for k in case.get("order", ["p", "q"])}
         cfg = {"extensions": ["verif.lib.components"], "pipeline": {"nodes": [
             {"processor": "FloatDataSource"},
